@@ -150,6 +150,10 @@ func compChoices(r *Rng, s *Sess) [][]int {
 // C12: subscriptions and Dispatch.
 func caseC12(c *Ctx) {
 	cfg := GenCfg(c.R, 40)
+	if c.Case%3 == 1 {
+		// component IDs in every word of the masks (restrictions are masks, and a Dispatch merges them)
+		cfg = GenCfg(c.R, 0)
+	}
 	p := DefaultProfile()
 	p.Steps = 100
 	p.PEmpty = 0.02
